@@ -399,6 +399,7 @@ prop("C19", "c19",
       dict(run="^TestHostileRemoteResponsesYieldErrorResponses$", quick=4000, thorough=8000, shards_thorough=6),
       dict(run="^TestRawRequestsDoNotStopTheService$", quick=150, thorough=1500, shards_thorough=2),
       dict(run="^TestRuleSetsWithEnvironmentReferencesAreRejectedNotFatal$", quick=3000, thorough=60000, shards_thorough=2),
+      dict(run="^TestMalformedObjectsOfABucketLeaveTheLoadedRuleSetsInEffect$", quick=400, thorough=6000, shards_thorough=2),
       dict(run="^TestRuleSetFileVanishingWhileItIsReadIsNotFatal$", quick=300, thorough=3000, shards_thorough=1),
       dict(run="^TestTokenEndpointAnswersToTheRuleProvider$", quick=1200, thorough=3000, shards_thorough=2),
       dict(run="^FuzzRuleSetBytes$", fuzz=True, quick=1, thorough=1, shards_thorough=1, fuzztime_thorough=240, fuzz_workers=6),
